@@ -11,15 +11,18 @@ structure Inv (s : St) : Prop where
   qN    : s.q.Nodup
   wkA   : ∀ t, t ∈ s.woken → s.pc t = .asleep
   wkN   : s.woken.Nodup
-  qw    : ∀ t, t ∈ s.q → t ∉ s.woken
-  asl   : ∀ t, s.pc t = .asleep → t ∈ s.q ∨ t ∈ s.woken
-  car   : ∀ u x, (s.pc u = .uc x ∨ s.pc u = .up x) → x ∈ s.woken
-  carU  : ∀ u1 u2 x, (s.pc u1 = .uc x ∨ s.pc u1 = .up x) → (s.pc u2 = .uc x ∨ s.pc u2 = .up x) → u1 = u2
-  wkC   : ∀ x, x ∈ s.woken → ∃ u, s.pc u = .uc x ∨ s.pc u = .up x
+  rdA   : ∀ t, t ∈ s.ready → s.pc t = .asleep
+  rdN   : s.ready.Nodup
+  qw    : ∀ t, t ∈ s.q → (t ∉ s.woken ∧ t ∉ s.ready)
+  wr    : ∀ t, t ∈ s.woken → t ∉ s.ready
+  asl   : ∀ t, s.pc t = .asleep → t ∈ s.q ∨ t ∈ s.woken ∨ t ∈ s.ready
+  car   : ∀ u x, s.pc u = .uc x → x ∈ s.woken
+  carU  : ∀ u1 u2 x, s.pc u1 = .uc x → s.pc u2 = .uc x → u1 = u2
+  wkC   : ∀ x, x ∈ s.woken → ∃ u, s.pc u = .uc x
   uwO   : s.uwf = true → s.owner ≠ none
   uwP   : ∀ t, s.owner = some t → (s.uwf = true ↔ s.pc t = .uw)
   acct  : s.word / 2 + (if s.uwf = true then 1 else 0) = s.anns.length + s.q.length
-  hope  : (s.q ≠ [] ∨ s.anns ≠ []) → s.owner ≠ none ∨ ∃ t, active (s.pc t) = true
+  hope  : (s.q ≠ [] ∨ s.anns ≠ []) → s.owner ≠ none ∨ s.ready ≠ [] ∨ ∃ t, active (s.pc t) = true
   urOdd : ∀ t v, s.pc t = .ur v → v % 2 = 1
   trEven : ∀ t v, s.pc t = .tr v → v % 2 = 0
 
@@ -33,7 +36,7 @@ macro "mfinish" : tactic => `(tactic| (
 
 macro "mstep" : tactic => `(tactic| (
   intro h hs
-  obtain ⟨hown, hbit, hannM, hannN, hqA, hqN, hwkA, hwkN, hqw, hasl, hcar, hcarU, hwkC, huwO, huwP, hacct, hhope, hurOdd, htrEven⟩ := h
+  obtain ⟨hown, hbit, hannM, hannN, hqA, hqN, hwkA, hwkN, hrdA, hrdN, hqw, hwr, hasl, hcar, hcarU, hwkC, huwO, huwP, hacct, hhope, hurOdd, htrEven⟩ := h
   simp only [step] at hs
   (first | (split at hs) | skip)
   all_goals (first | (split at hs) | skip)
@@ -45,7 +48,6 @@ macro "mstep" : tactic => `(tactic| (
 theorem p_lockRead (s s' : St) (t v) : Inv s → step s (.lockRead t v) = some s' → Inv s' := by mstep
 theorem p_blockBegin (s s' : St) (t) : Inv s → step s (.blockBegin t) = some s' → Inv s' := by mstep
 theorem p_wakeSpin (s s' : St) (t) : Inv s → step s (.wakeSpin t) = some s' → Inv s' := by mstep
-
 theorem p_lockCas1 (s s' : St) (t ok) : Inv s → step s (.lockCas1 t ok) = some s' → Inv s' := by mstep
 theorem p_lockCas2 (s s' : St) (t ok) : Inv s → step s (.lockCas2 t ok) = some s' → Inv s' := by mstep
 theorem p_tryRead (s s' : St) (t v) : Inv s → step s (.tryRead t v) = some s' → Inv s' := by mstep
@@ -54,6 +56,7 @@ theorem p_unlockRead (s s' : St) (t v) : Inv s → step s (.unlockRead t v) = so
 theorem p_unlockCas2 (s s' : St) (t ok) : Inv s → step s (.unlockCas2 t ok) = some s' → Inv s' := by mstep
 theorem p_wakeDeq (s s' : St) (t x) : Inv s → step s (.wakeDeq t x) = some s' → Inv s' := by mstep
 theorem p_clearBit (s s' : St) (t) : Inv s → step s (.clearBit t) = some s' → Inv s' := by mstep
+theorem p_wakePush (s s' : St) (x) : Inv s → step s (.wakePush x) = some s' → Inv s' := by mstep
 
 
 macro "mfinish'" : tactic => `(tactic| (
@@ -62,7 +65,7 @@ macro "mfinish'" : tactic => `(tactic| (
 
 theorem p_cbEnq (s s' : St) (t) : Inv s → step s (.cbEnq t) = some s' → Inv s' := by
   intro h hs
-  obtain ⟨hown, hbit, hannM, hannN, hqA, hqN, hwkA, hwkN, hqw, hasl, hcar, hcarU, hwkC, huwO, huwP, hacct, hhope, hurOdd, htrEven⟩ := h
+  obtain ⟨hown, hbit, hannM, hannN, hqA, hqN, hwkA, hwkN, hrdA, hrdN, hqw, hwr, hasl, hcar, hcarU, hwkC, huwO, huwP, hacct, hhope, hurOdd, htrEven⟩ := h
   simp only [step] at hs
   split at hs
   · rename_i hpc
@@ -71,9 +74,10 @@ theorem p_cbEnq (s s' : St) (t) : Inv s → step s (.cbEnq t) = some s' → Inv 
     case hope =>
       intro _
       have hm : t ∈ s.anns := (hannM t).mpr (Or.inr hpc)
-      rcases hhope (Or.inr (List.ne_nil_of_mem hm)) with h | ⟨u, hu⟩
+      rcases hhope (Or.inr (List.ne_nil_of_mem hm)) with h | h | ⟨u, hu⟩
       · exact Or.inl h
-      · refine Or.inr ⟨u, ?_⟩
+      · exact Or.inr (Or.inl h)
+      · refine Or.inr (Or.inr ⟨u, ?_⟩)
         have : u ≠ t := by intro e; subst e; simp [hpc, active] at hu
         simpa [upd_apply, this] using hu
     all_goals mfinish'
@@ -81,7 +85,7 @@ theorem p_cbEnq (s s' : St) (t) : Inv s → step s (.cbEnq t) = some s' → Inv 
 
 theorem p_unlockCas0 (s s' : St) (t ok) : Inv s → step s (.unlockCas0 t ok) = some s' → Inv s' := by
   intro h hs
-  obtain ⟨hown, hbit, hannM, hannN, hqA, hqN, hwkA, hwkN, hqw, hasl, hcar, hcarU, hwkC, huwO, huwP, hacct, hhope, hurOdd, htrEven⟩ := h
+  obtain ⟨hown, hbit, hannM, hannN, hqA, hqN, hwkA, hwkN, hrdA, hrdN, hqw, hwr, hasl, hcar, hcarU, hwkC, huwO, huwP, hacct, hhope, hurOdd, htrEven⟩ := h
   simp only [step] at hs
   split at hs
   · rename_i v hpc
@@ -109,23 +113,5 @@ theorem p_unlockCas0 (s s' : St) (t ok) : Inv s → step s (.unlockCas0 t ok) = 
         all_goals mfinish'
     · simp at hs
   all_goals simp at hs
-
-theorem p_wakePush (s s' : St) (t x) : Inv s → step s (.wakePush t x) = some s' → Inv s' := by
-  intro h hs
-  obtain ⟨hown, hbit, hannM, hannN, hqA, hqN, hwkA, hwkN, hqw, hasl, hcar, hcarU, hwkC, huwO, huwP, hacct, hhope, hurOdd, htrEven⟩ := h
-  simp only [step] at hs
-  split at hs
-  · rename_i hpc
-    simp at hs; subst hs
-    have hxw : x ∈ s.woken := hcar t x (Or.inr hpc)
-    have hxa : s.pc x = .asleep := hwkA x hxw
-    have hxt : x ≠ t := by intro e; subst e; simp [hpc] at hxa
-    constructor
-    case hope =>
-      intro _
-      refine Or.inr ⟨x, ?_⟩
-      simp [upd_apply, hxt, active]
-    all_goals mfinish'
-  · simp at hs
 
 end MythVerif.Mutex
